@@ -7,7 +7,7 @@
 From Coq Require Import List Arith ZArith Bool Reals.
 From T4V Require Import Base.Scalar C07.Model C07.ProofsAlgebra C07.ProofsComb C07.ProofsMain
   C07.ProofsGeom C07.ProofsExample C07.ProofsDomain C07.ProofsRhp C07.ModelDevelop C07.ProofsDevelop
-  C07.ProofsErrors C07.LinkC03 C07.ProofsCaps C07.ProofsFlip.
+  C07.ProofsErrors C07.LinkC03 C07.ProofsCaps C07.ProofsFlip C07.LinkC04.
 Import ListNotations.
 Open Scope R_scope.
 
@@ -534,6 +534,38 @@ Theorem C07_flipped_sense_lattice_error :
   hexLatticeBaseVectors RS surfs = Err ELattice.
 Proof. exact flipped_sense_lattice_error. Qed.
 
+(* ---------- link with C04 (coordinate transformations) ---------- *)
+
+(* A hexagonal prism under TRCL / a TRn on its plane cards.  moved_surfs o b is
+   what C04's model of Transformation.transformation does to every plane frame
+   (first conjunct: point -> O + B^T point = C04's to_main, normal -> B^T normal =
+   C04's tvec); for rows_orthonormal b (C04's spec of a TR card) and an admissible
+   prism (hypotheses of C07_hex_base_vectors; with eight planes, parallel caps),
+   hexLatticeBaseVectors of the moved planes is the rotated list: a_i' = B^T a_i *)
+Theorem C07_hex_base_vectors_trcl_linked :
+  forall (o : S4.R3) (b : V4.M3 R) (c u : rvec) (w : nat -> rvec) (l : list nat) (surfs : list rsurf),
+  (forall (P N : rvec) cp nap,
+     C04.Model.transformation RS (V4.vlist o ++ V4.mlist b) (C04.Model.mkMS C04.Model.KP (t3 P) (t3 N) cp nap)
+     = C04.Model.Ok (C04.Model.mkMS C04.Model.KP (t3 (mov o b P)) (t3 (rot b N)) cp nap)) /\
+  (S4.rows_orthonormal b ->
+   In l all_listings ->
+   (forall i, (i < 6)%nat -> carries u w (pl surfs i) (side_at l i)) ->
+   (forall i, (i < 6)%nat -> sd surfs i = planeSide RS c (pl surfs i) /\ sd surfs i <> 0%Z) ->
+   (forall k, wv w (k + 3) = vsub (vscale 2 c) (wv w k)) ->
+   ((forall k, 0 < det3 (vsub (wv w (k + 1)) (wv w k)) (vsub (wv w (k + 2)) (wv w (k + 1))) u) \/
+    (forall k, det3 (vsub (wv w (k + 1)) (wv w k)) (vsub (wv w (k + 2)) (wv w (k + 1))) u < 0)) ->
+   (List.length surfs = 6%nat \/
+    (List.length surfs = 8%nat /\ dot u (snd (pl surfs 6)) <> 0 /\ dot u (snd (pl surfs 7)) <> 0 /\
+     exists lam, snd (pl surfs 6) = vscale lam (snd (pl surfs 7)))) ->
+   exists vecs,
+     hexLatticeBaseVectors RS surfs = Ok vecs /\
+     hexLatticeBaseVectors RS (moved_surfs o b surfs) = Ok (map (rot b) vecs)).
+Proof.
+  intros o b c u w l surfs. split.
+  - intros P N cp nap. apply moved_plane_is_C04_transformation.
+  - intros Hb Hl Hc Hs Hsym Ht Hlen. exact (hex_base_vectors_moved o b c u w l surfs Hb Hl Hc Hs Hsym Ht Hlen).
+Qed.
+
 (* ================================================================== *)
 (* Families: each is literally the conjunction of the member theorems  *)
 (* above, so that one Print Assumptions audits the whole group.        *)
@@ -564,7 +596,7 @@ Print Assumptions C07_family_errors.
 
 (* statements that import another property (C06: develop_lattice; C03: rhp) *)
 Theorem C07_family_linked :
-  ltac:(let t := type of (conj C07_hex_lattice_developed (conj C07_develop_lattice_hex_is_tied C07_rhp_is_C03_rhp_linked)) in exact t).
-Proof. exact (conj C07_hex_lattice_developed (conj C07_develop_lattice_hex_is_tied C07_rhp_is_C03_rhp_linked)). Qed.
+  ltac:(let t := type of (conj C07_hex_lattice_developed (conj C07_develop_lattice_hex_is_tied (conj C07_rhp_is_C03_rhp_linked C07_hex_base_vectors_trcl_linked))) in exact t).
+Proof. exact (conj C07_hex_lattice_developed (conj C07_develop_lattice_hex_is_tied (conj C07_rhp_is_C03_rhp_linked C07_hex_base_vectors_trcl_linked))). Qed.
 Print Assumptions C07_family_linked.
 
